@@ -248,6 +248,24 @@ func serveGuards(c *core.Ctx) {
 				}
 			}
 		}
+		// selected by assignment rather than by a nil test: on this path the handler variable last
+		// received the element of a `range` over the protocol handlers, under the content-type lookup's ok
+		if !pi.phSet && phVar != nil {
+			if rhs := s.LastAssigned(info, phVar); rhs != nil && !astx.IsNil(info, rhs) {
+				if elem := astx.ObjOf(info, astx.Unparen(rhs)); elem != nil {
+					isRangeElem := false
+					ast.Inspect(fd.Body, func(x ast.Node) bool {
+						if rs, ok := x.(*ast.RangeStmt); ok && rs.Value != nil && astx.ObjOf(info, rs.Value) == elem {
+							isRangeElem = true
+						}
+						return true
+					})
+					if isRangeElem {
+						pi.phSet = true
+					}
+				}
+			}
+		}
 		return pi
 	}
 
